@@ -178,6 +178,22 @@ def run(report, tier, seed):
             return tuple(a - nd if rng.random() < 0.5 else a for a in axes)
         return rng.randrange(-nd, nd)
 
+    # ---- numpy integers as axis (numpy accepts its own integer types wherever it accepts an int): every reducer, three
+    #      spellings (D37)
+    for fname in ("sum", "prod", "mean", "cumsum"):
+        p = mk((2, 3), small=fname == "prod")
+        for ax in (numpy.int64(0), numpy.int32(1), numpy.intp(-1)):
+            for spelling, call in (("numpoly", lambda: getattr(numpoly, fname)(p, axis=ax)), ("numpy", lambda: getattr(numpy, fname)(p, axis=ax)),
+                                   ("method", lambda: getattr(p, fname)(axis=ax))):
+                try:
+                    got, want = call(), getattr(numpoly, fname)(p, axis=int(ax))
+                    if got.shape != want.shape or not numpy.all(numpy.asarray(got == want)):
+                        viol.append((f"{fname}:value", f"{fname}(axis={type(ax).__name__}({int(ax)}), spelling={spelling}) differs from axis={int(ax)}",
+                                     {"function": fname, "axis": int(ax), "operands": [core.poly_layout(p)]}))
+                except Exception as exc:  # noqa: BLE001
+                    viol.append((f"{fname}:raise:{type(exc).__name__}", f"{fname}(axis={type(ax).__name__}({int(ax)}), spelling={spelling}) on "
+                                 f"{gen.describe(p)} raised {type(exc).__name__}: {exc}", {"function": fname, "axis": int(ax), "operands": [core.poly_layout(p)]}))
+                n_eval += 1
     # ---- systematic sweep: every ordered axis tuple (each axis once, any order, negative spellings) of 3-D and 2-D
     #      arrays, keepdims on and off, through sum / mean / prod and the reduce spellings
     import itertools
